@@ -279,7 +279,8 @@ class Composite(LexicalParent[Node], HasCreator, Node, ABC):
         errors: dict[str, Exception] = {}
         accounted_for: set[str] = set()
         if len(self.running_children) > 0:  # Start from a broken process
-            for label in self.running_children:
+            for label in list(self.running_children):
+                # (a copy: each child takes itself off `running_children` as it finishes)
                 self.children[label].run()
                 # Running children will find serialized result and proceed,
                 # or raise an error because they're already running
